@@ -424,12 +424,6 @@ var knownTags = map[string]string{
 
 func knownClassesOf(c Case, err error) []string {
 	var out []string
-	// a line-break position on an EMPTY line of a document embedded in a block
-	// scalar gets the embedding's column offset and so points past the line end
-	var be *beyondError
-	if c.Class == "in-scalar" && errors.As(err, &be) && strings.TrimRight(be.text, "\r") == "" {
-		out = append(out, "embedded-blank-line")
-	}
 	for _, s := range c.Styles {
 		if k, ok := knownTags[s]; ok {
 			out = append(out, k)
